@@ -1,5 +1,6 @@
 import VermouthModel.C05
 import VermouthModel.C05_Run
+import VermouthModel.C05_Text
 open Proto Iso C05
 
 /-
@@ -230,6 +231,101 @@ def runTableOps : Mol → List Tok → List String → Option (Mol × List Strin
     | some none => runTableOps m rest ("0" :: acc)
     | some (some m') => runTableOps m' rest ("1" :: acc)
 
+
+/-- the answer to an `apply` line (also used for links built from their text form) -/
+def applyOut (m : Mol) (ls : List Link) (given pos llogs logs0 : Tok) : Option String := do
+  let gs ← (← given.list?).mapM (fun g => do (← g.list?).mapM mapOfTok)
+  let ptab ← posTableOf pos
+  let posf : PosFn := fun a => ptab.lookup a
+  let lls ← (← llogs.list?).mapM linkLogsOf
+  let lg0 ← logsOf logs0
+  let res := applyLinksX posf m ls gs
+  let flag := encBool res.maybe
+  match res.out with
+  | .error .matching => pure (flag ++ " " ++ encStr "error" ++ " " ++ encStr "match")
+  | .error (.eff e) => pure (flag ++ " " ++ encStr "error" ++ " " ++ encStr (encErr e))
+  | .ok s =>
+    let log := runLog (m, []) ls gs
+    let evs := logEvents log
+    let s' := run (m, []) evs
+    -- `applyLinks = run ∘ runEvents` is a theorem; the driver executes both and says so if they differ
+    let same := encMol s.1 == encMol s'.1
+    pure (flag ++ " " ++ (if same then "" else encStr "RUN-DIFFERS" ++ " ") ++
+          encMolX posf s.1 (runLogs log lls lg0) (encEvents (m, []) evs) ++ " " ++
+          encList (s.1.nodes.map fun n => encList [encInt n.key, encAttrs (attrWrites n.key evs)]))
+
+/-! links in text form (see VermouthModel/C05_Text.lean)
+  DLink   : [ wide items cites ]
+  item    : [ "atom" mention ] | [ "smeta" ty attrs ] | [ "inter" ty del [mention..] [param..] attrs ]
+          | [ "edge" mention mention ] | [ "nonedge" mention mention ] | [ "pattern" [[key tattrs]..] ]
+          | [ "molmeta" key tval ] | [ "other" ]
+  mention : [ key [prefix-order]? base written replace ]      ([] = no prefix; replace: attrs | `-`) -/
+def encTVal : TVal → String
+  | .plain v => encVal v
+  | .choice vs => encList ("2" :: vs.map encVal)
+  | .notDef v => encList ["3", encVal v]
+
+def encTAttrs (a : TAttrs) : String := encList (a.map fun kv => encList [encStr kv.1, encTVal kv.2])
+
+def encPairs (l : List (Int × Int)) : String := encList (l.map fun e => encList [encInt e.1, encInt e.2])
+
+def encKeyed (l : List (Int × TAttrs)) : String := encList (l.map fun e => encList [encInt e.1, encTAttrs e.2])
+
+def encLink (l : Link) : String :=
+  encList [
+    encList (l.nodes.map fun n => encList [encInt n.key, encTAttrs n.attrs,
+      (match n.replace with | none => "-" | some r => encAttrs r)]),
+    encPairs l.edges, encTAttrs l.molmeta, encKeyed l.nonEdges, encList (l.patterns.map encKeyed),
+    encList (l.removed.map fun e => encList [encStr e.1, encList (e.2.atoms.map encInt),
+      encList (e.2.params.map encParam),
+      (match e.2.atomAttrs with | none => "-" | some aa => encList (aa.map encTAttrs)), encTAttrs e.2.md]),
+    encList (l.inters.map fun e => encList [encStr e.1, encList (e.2.atoms.map encInt),
+      encList (e.2.params.map encParam), encAttrs e.2.md]),
+    encList (l.cites.map encStr)]
+
+def siteOf (t : Tok) : Option Site := do
+  match ← t.str? with
+  | "atom" => some .atomLine
+  | "inter" => some .interAtom
+  | "nonedge" => some .nonEdgePartner
+  | "pattern" => some .patternAtom
+  | "del" => some .delAtom
+  | _ => none
+
+def mentionOf (t : Tok) : Option Mention := do
+  match ← t.list? with
+  | [k, po, base, written, rep] =>
+    let p ← (match ← po.list? with
+      | [] => some Option.none
+      | [v] => (tvalOf v).map some
+      | _ => none)
+    let r ← (match rep with
+      | Tok.none => some Option.none
+      | r => (attrsOf r).map some)
+    pure { key := ← k.int?, prefixOrder := p, base := ← base.str?, written := ← tattrsOf written, replace := r }
+  | _ => none
+
+def ditemOf (t : Tok) : Option DItem := do
+  match ← t.list? with
+  | [Tok.str "atom", m] => pure (.atom (← mentionOf m))
+  | [Tok.str "smeta", ty, a] => pure (.secMeta (← ty.str?) (← attrsOf a))
+  | [Tok.str "inter", ty, del, atoms, params, md] =>
+    pure (.inter (← ty.str?) ((← del.int?) != 0) (← (← atoms.list?).mapM mentionOf)
+            (← (← params.list?).mapM paramOf) (← attrsOf md))
+  | [Tok.str "edge", a, b] => pure (.edge (← mentionOf a) (← mentionOf b))
+  | [Tok.str "nonedge", a, b] => pure (.nonEdge (← mentionOf a) (← mentionOf b))
+  | [Tok.str "pattern", atoms] => pure (.pattern (← (← atoms.list?).mapM keyedOf))
+  | [Tok.str "molmeta", k, v] => pure (.molmeta (← k.str?) (← tvalOf v))
+  | [Tok.str "other"] => pure .other
+  | _ => none
+
+/-- outer `none`: malformed protocol line; inner `none`: the reader rejects the link -/
+def dlinkOf (t : Tok) : Option (Option Link) := do
+  match ← t.list? with
+  | [wide, items, cites] =>
+    pure (buildLink (← tattrsOf wide) (← (← items.list?).mapM ditemOf) (← strs? cites))
+  | _ => none
+
 def handle (_ : Unit) (toks : List Tok) : Unit × String :=
   let r : Option String :=
     match toks with
@@ -254,25 +350,16 @@ def handle (_ : Unit) (toks : List Tok) : Unit × String :=
     | [Tok.str "apply", nodes, edges, md, inters, cites, links, given, pos, llogs, logs0] => do
         let m ← molOf nodes edges md inters cites
         let ls ← (← links.list?).mapM linkOf
-        let gs ← (← given.list?).mapM (fun g => do (← g.list?).mapM mapOfTok)
-        let ptab ← posTableOf pos
-        let posf : PosFn := fun a => ptab.lookup a
-        let lls ← (← llogs.list?).mapM linkLogsOf
-        let lg0 ← logsOf logs0
-        let res := applyLinksX posf m ls gs
-        let flag := encBool res.maybe
-        match res.out with
-        | .error .matching => pure (flag ++ " " ++ encStr "error" ++ " " ++ encStr "match")
-        | .error (.eff e) => pure (flag ++ " " ++ encStr "error" ++ " " ++ encStr (encErr e))
-        | .ok s =>
-          let log := runLog (m, []) ls gs
-          let evs := logEvents log
-          let s' := run (m, []) evs
-          -- `applyLinks = run ∘ runEvents` is a theorem; the driver executes both and says so if they differ
-          let same := encMol s.1 == encMol s'.1
-          pure (flag ++ " " ++ (if same then "" else encStr "RUN-DIFFERS" ++ " ") ++
-                encMolX posf s.1 (runLogs log lls lg0) (encEvents (m, []) evs) ++ " " ++
-                encList (s.1.nodes.map fun n => encList [encInt n.key, encAttrs (attrWrites n.key evs)]))
+        applyOut m ls given pos llogs logs0
+    | [Tok.str "tapply", nodes, edges, md, inters, cites, dlinks, given, pos, llogs, logs0] => do
+        -- links given as the LINES of a force-field file (declared semantics): built by `buildLink`
+        let m ← molOf nodes edges md inters cites
+        let built ← (← dlinks.list?).mapM dlinkOf
+        match built.mapM id with
+        | none => pure (encStr "rejected" ++ " " ++ encList (built.map fun b => encBool b.isSome))
+        | some ls => pure (encList (ls.map encLink) ++ " " ++ (← applyOut m ls given pos llogs logs0))
+    | [Tok.str "effective", site, wide, ln] => do
+        pure (encTAttrs (effectiveAttrs (← siteOf site) (← tattrsOf wide) (← tattrsOf ln)))
     | [Tok.str "effnew", name, keys, fmt] => do
         match effNew (← name.str?) (← ints? keys) (← fmt.optStr?) with
         | some _ => pure "ok"
